@@ -67,8 +67,11 @@ def repo_traces(ctx, thorough):
     trace = os.path.join(ctx.scratch, "repo-app-trace.ndjson")
     env = go_env()
     env["VERIF_APP_TRACE"] = trace
-    p = subprocess.run(["go", "test", "-tags", "verif", "-vet=off", "-count=1", "-timeout", "20m"] + pkgs, cwd=ctx.repo, env=env,
-                       stdout=subprocess.PIPE, stderr=subprocess.STDOUT, text=True, errors="replace", timeout=1500)
+    try:
+        p = subprocess.run(["go", "test", "-tags", "verif", "-vet=off", "-count=1", "-timeout", "40m"] + pkgs, cwd=ctx.repo, env=env,
+                           stdout=subprocess.PIPE, stderr=subprocess.STDOUT, text=True, errors="replace", timeout=2700)
+    except subprocess.TimeoutExpired:
+        raise CheckBroken("repository tests with -tags verif did not finish in time (machine overloaded?)")
     if "[build failed]" in p.stdout or "[setup failed]" in p.stdout:
         raise CheckBroken("repository tests do not build with -tags verif:\n" + p.stdout[-2000:])
     # a failing (timing-sensitive) repository test is not this check's business; only the recorded traces are
